@@ -17,6 +17,8 @@ type docGen struct {
 	pBad   float64 // probability that a field gets a defect
 	hist   map[string]int
 	anchor int
+	// anchors set on group-level values of the file being generated (kind -> names), for aliases in LATER groups
+	grpAnchors map[string][]string
 }
 
 func newDocGen(r *rand.Rand, pBad float64) *docGen {
@@ -395,6 +397,32 @@ func (g *docGen) ruleItems(n int, fancy bool) [][]string {
 // fixAnchorItem: an item whose first line is "&name" must be printed as "- &name" + newline + indented mapping.
 // seqLines already does this because following lines are indented by 2.
 
+// groupValue decorates the lines of one group-level `key: value` (first line `key:` or `key: scalar`): sometimes the value
+// gets an anchor, sometimes the whole value is replaced by an alias of the same key's value in an EARLIER group
+// (`rules: *shared`, `labels: *common`, `interval: *iv`).
+func (g *docGen) groupValue(key string, lines []string) []string {
+	if len(lines) == 0 || g.grpAnchors == nil || !strings.HasPrefix(lines[0], key+":") {
+		return lines
+	}
+	if names := g.grpAnchors[key]; len(names) > 0 && g.chance(0.4) {
+		g.note("style:group-" + key + "-alias")
+		return []string{key + ": *" + pick(g.r, names)}
+	}
+	if g.chance(0.2) {
+		rest := strings.TrimPrefix(lines[0], key+":")
+		if strings.HasPrefix(rest, " {") || strings.HasPrefix(rest, " [") || strings.HasPrefix(rest, " |") || strings.HasPrefix(rest, " >") || strings.HasPrefix(rest, " &") || strings.HasPrefix(rest, " *") {
+			return lines
+		}
+		g.anchor++
+		name := fmt.Sprintf("g%s%d", key, g.anchor)
+		g.grpAnchors[key] = append(g.grpAnchors[key], name)
+		g.note("style:group-" + key + "-anchor")
+		out := append([]string{key + ": &" + name + rest}, lines[1:]...)
+		return out
+	}
+	return lines
+}
+
 func (g *docGen) groupLines(idx int) []string {
 	var out []string
 	name := fmt.Sprintf("group%d", idx)
@@ -420,11 +448,15 @@ func (g *docGen) groupLines(idx int) []string {
 			parts = append(parts, []string{"name: " + name, "name: " + name + "x"})
 		case 5:
 			g.note("defect:group:name-alias")
-			parts = append(parts, []string{"name: &gn" + fmt.Sprint(idx) + " " + name})
+			if idx > 0 && g.chance(0.5) {
+				parts = append(parts, []string{"name: *gn0"})
+			} else {
+				parts = append(parts, []string{"name: &gn" + fmt.Sprint(idx) + " " + name})
+			}
 		}
 	}
 	if g.chance(0.4) {
-		parts = append(parts, g.scalarField("interval", genDurs[:6], genBadDurs, false, false))
+		parts = append(parts, g.groupValue("interval", g.scalarField("interval", genDurs[:6], genBadDurs, false, false)))
 	}
 	if g.chance(0.15) {
 		parts = append(parts, g.scalarField("query_offset", genDurs[:6], genBadDurs, false, false))
@@ -438,7 +470,7 @@ func (g *docGen) groupLines(idx int) []string {
 		}
 	}
 	if g.chance(0.25) {
-		parts = append(parts, g.mapField("labels", genLabelNames, genBadLNames, genLabelValues, nil, true))
+		parts = append(parts, g.groupValue("labels", g.mapField("labels", genLabelNames, genBadLNames, genLabelValues, nil, true)))
 	}
 	if g.chance(g.pBad * 0.5) {
 		g.note("defect:group:unknown-key")
@@ -457,7 +489,7 @@ func (g *docGen) groupLines(idx int) []string {
 		} else {
 			items := g.ruleItems(n, true)
 			ind := pick(g.r, []int{0, 2})
-			parts = append(parts, append([]string{"rules:"}, seqLines(items, ind)...))
+			parts = append(parts, g.groupValue("rules", append([]string{"rules:"}, seqLines(items, ind)...)))
 		}
 	default:
 		switch g.r.Intn(5) {
@@ -510,6 +542,7 @@ func (g *docGen) groupLines(idx int) []string {
 
 // ruleFile generates one rule document.
 func (g *docGen) ruleFile() string {
+	g.grpAnchors = map[string][]string{}
 	var lines []string
 	if g.chance(0.1) {
 		lines = append(lines, "# rules for something", "")
